@@ -697,6 +697,28 @@ def run_impostor_initiator(conf_name, guess):
     w = S.new_world(confs)
     w.sent_log = []
     delivered = []
+    recorded = None
+    if guess == b'replay-recorded-auth':
+        # an honest session first (B verifies A's genuine AUTH payload), recorded by Mallory and closed again; afterwards
+        # she presents that very AUTH payload in a fresh exchange of her own (other SPIs, nonces, keys)
+        from message import Message
+        w.step(('acquire', 'A', 0, 0))
+        for _ in range(2):
+            w.step(('deliver', w.net[0].id))
+        auth_req = w.net[0]
+        sa_a = w.endpoints['A'].controller.ike_sas[0]
+        m3 = Message.parse(auth_req.data, crypto=sa_a.my_crypto)
+        recorded = [p for p in m3.encrypted_payloads if int(p.type) == F.AUTH][0]
+        w.deliver_all()
+        w.step(('due', 'A', 0, 'delete_ike'))
+        w.deliver_all()
+        if w.endpoints['A'].controller.ike_sas or w.endpoints['B'].controller.ike_sas:
+            raise HarnessError('the honest session did not close')
+        w.sent_log = []
+        for e in w.endpoints.values():       # what the honest session installed and removed again is not Mallory's doing
+            if e.kernel.sad:
+                raise HarnessError('the honest session left SAs behind')
+            del e.kernel.log[:]
     as_m, conf_as_a, conf_as_b = _mallory(w, conf_name)
     ikeconf = conf_as_a.get_ike_configuration(ip_address(A_ADDR), ip_address(B_ADDR))
     m_init = as_m(lambda: ikesa.IkeSa(True, b'\0' * 8, ikeconf, ip_address(A_ADDR), ip_address(B_ADDR)))
@@ -717,7 +739,7 @@ def run_impostor_initiator(conf_name, guess):
     idp = [p for p in req.encrypted_payloads if int(p.type) == F.IDi][0]
     id_body = bytes([int(idp.id_type), 0, 0, 0]) + bytes(idp.id_data)
     octets = RK.signed_octets(bytes(msg1m), nr, prf_name, m_init.ike_sa_keyring.sk_pi, id_body)
-    forged = PayloadAUTH(2, RK.psk_auth(prf_name, guess, octets))
+    forged = PayloadAUTH(2, RK.psk_auth(prf_name, guess, octets)) if recorded is None else recorded
     if guess == b'skip-auth':
         # no AUTH at all: a protected CREATE_CHILD_SA request (Message ID 1) in place of IKE_AUTH, and an INFORMATIONAL
         from message import PayloadNONCE, Message
@@ -948,6 +970,7 @@ def main():
                                                                 'clear-informational-to-init')]
     cases += [('mitm', 'impostor-initiator|%s|%s' % (c, g.hex())) for c in ('psk', 'rsa', 'mm:b-has-pubkey-and-psk-a-sends-psk-wrong')
               for g in (b'', b'testing2', b'alice@openikev2', b'testing-not', b'skip-auth')]
+    cases += [('mitm', 'impostor-initiator|%s|%s' % (c, b'replay-recorded-auth'.hex())) for c in ('psk', 'rsa')]
     outcomes = collections.Counter()
     n_est = 0
     results = ck.pmap(work, cases)
